@@ -33,6 +33,8 @@ func errStr(err error) string {
 		return "optout"
 	case errors.Is(err, dnssec.ErrNSECMissingCoverage):
 		return "missing"
+	case errors.Is(err, dnssec.ErrWildcardNoDenial):
+		return "nodenial"
 	}
 	return "other:" + strings.ReplaceAll(err.Error(), " ", "_")
 }
@@ -270,6 +272,99 @@ func execNsec(f []string) vlib.Res {
 			}
 		}
 		return res
+	case "dname":
+		q, ds := parseName(f[2]), parseDnames(f[3])
+		m := question(q, dns.TypeA, dns.ClassINET, dns.RcodeSuccess)
+		m.Answer = dnameRRs(ds)
+		got := dnsutil.DnameTarget(m)
+		impl := "-"
+		if got != "" {
+			impl = fromPres(got).fold().String()
+		}
+		// RFC 6672 2.2 written out: only names strictly below the owner are redirected
+		or := "ok"
+		if len(ds) > 0 {
+			o := ds[0][0].fold()
+			below := len(q) > len(o) && len(o) > 0 && q.fold().under(o)
+			if (got != "") != below {
+				or = "FAIL sig=dname/target/" + map[bool]string{true: "rewrote-name-not-below-owner", false: "missed-name-below-owner"}[got != ""]
+			}
+		} else if got != "" {
+			or = "FAIL sig=dname/target/rewrote-without-dname"
+		}
+		return vlib.Res{Impl: impl, Oracle: or, Tags: "nt"}
+	case "nxdd", "nodd":
+		// the exact validators on a response that carries a DNAME in its answer section
+		signer, q, t, ds := parseName(f[2]), parseName(f[3]), uint16(atoi(f[4])), parseDnames(f[5])
+		if dnssec.ValidateSigner(signer.pres(), q.pres()) != nil {
+			return vlib.Res{Impl: "notsigner", Oracle: "ok"}
+		}
+		set := dnsutil.FilterRRsToZone(curRRs, signer.pres())
+		rcode := dns.RcodeNameError
+		if f[1] == "nodd" {
+			rcode = dns.RcodeSuccess
+		}
+		m := question(q, t, dns.ClassINET, rcode)
+		m.Answer = dnameRRs(ds)
+		var err error
+		entry := "nameerror"
+		if f[1] == "nxdd" {
+			err = dnssec.VerifyNameErrorNSEC(m, set)
+		} else {
+			entry = "nodata"
+			err = dnssec.VerifyNODATANSEC(m, set)
+		}
+		res := vlib.Res{Impl: errStr(err), Oracle: "-", Tags: "unjudged,dname"}
+		if judged(signer) {
+			// the name actually denied: the redirected one when the first DNAME applies
+			pn := q.fold()
+			if len(ds) > 0 {
+				o := ds[0][0].fold()
+				if len(pn) > len(o) && len(o) > 0 && pn.under(o) {
+					pn = append(append(name{}, pn[:len(pn)-len(o)]...), ds[0][1].fold()...)
+				}
+			}
+			res.Oracle, res.Tags = "ok", "rejected,dname"
+			if !pn.under(curZone.apex) {
+				// the rewritten name left the validated signer zone: nothing the
+				// pipeline can present (authority() is only entered with an empty
+				// answer section) — observed and tagged, not judged (see notes, "Noticed")
+				res.Oracle, res.Tags = "-", "unjudged,dname,dname-target-outside-signer"
+				if err == nil {
+					res.Tags += ",accepted"
+				}
+				return res
+			}
+			if err == nil {
+				res.Tags = "nt,accepted,dname"
+				truth, why := curZone.answerClass(pn, t)
+				want := map[string]string{"nxdd": "nxdomain", "nodd": "nodata"}[f[1]]
+				if truth != want {
+					res.Oracle = fmt.Sprintf("FAIL sig=nsec/%s/dname-%s-accepted truth=%s", entry, why, truth)
+				}
+			}
+		}
+		return res
+	case "wild":
+		// a positive answer whose RRSIGs claim wildcard expansion, as Resolver.answer
+		// handles it: authority section filtered to the signer, then VerifyWildcardAnswerForZoneWithWork
+		signer, sigs := parseName(f[2]), parseAnsSigs(f[3])
+		resp := wildResponse(sigs, signer)
+		resp.Ns = dnsutil.FilterRRsToZone(curRRs, signer.pres())
+		secure, err := dnssec.VerifyWildcardAnswerForZoneWithWork(resp, signer.pres(), nil)
+		res := vlib.Res{Impl: secStr(secure, err), Oracle: "-", Tags: "unjudged"}
+		if judged(signer) {
+			res.Oracle, res.Tags = "ok", "rejected"
+			if err == nil {
+				res.Tags = "nt,accepted"
+				if why := wildTruth(curZone, sigs); why == "unjudged" {
+					res.Oracle, res.Tags = "-", "unjudged,accepted"
+				} else if why != "" {
+					res.Oracle = "FAIL sig=wild/answer/" + why
+				}
+			}
+		}
+		return res
 	case "agg":
 		signer, q, t, c := parseName(f[2]), parseName(f[3]), uint16(atoi(f[4])), uint16(atoi(f[5]))
 		dq := dns.Question{Name: q.pres(), Qtype: t, Qclass: c}
@@ -329,6 +424,121 @@ func execNsec(f []string) vlib.Res {
 		return res
 	}
 	return vlib.Res{Impl: "bad-op"}
+}
+
+func parseDnames(s string) [][2]name {
+	var out [][2]name
+	if s == "-" {
+		return out
+	}
+	for _, p := range strings.Split(s, ";") {
+		o, t, _ := strings.Cut(p, ">")
+		out = append(out, [2]name{parseName(o), parseName(t)})
+	}
+	return out
+}
+
+func dnameRRs(ds [][2]name) []dns.RR {
+	var out []dns.RR
+	for _, d := range ds {
+		out = append(out, &dns.DNAME{Hdr: dns.RR_Header{Name: d[0].pres(), Rrtype: dns.TypeDNAME, Class: dns.ClassINET, Ttl: 300}, Target: d[1].pres()})
+	}
+	return out
+}
+
+func dnamesStr(ds [][2]name) string {
+	if len(ds) == 0 {
+		return "-"
+	}
+	parts := make([]string, len(ds))
+	for i, d := range ds {
+		parts[i] = d[0].String() + ">" + d[1].String()
+	}
+	return strings.Join(parts, ";")
+}
+
+type ansSig struct {
+	owner  name
+	labels int
+}
+
+func parseAnsSigs(s string) []ansSig {
+	var out []ansSig
+	if s == "-" {
+		return out
+	}
+	for _, p := range strings.Split(s, ";") {
+		o, l, _ := strings.Cut(p, ":")
+		out = append(out, ansSig{owner: parseName(o), labels: atoi(l)})
+	}
+	return out
+}
+
+func ansSigsStr(gs []ansSig) string {
+	if len(gs) == 0 {
+		return "-"
+	}
+	parts := make([]string, len(gs))
+	for i, g := range gs {
+		parts[i] = g.owner.String() + ":" + itoa(g.labels)
+	}
+	return strings.Join(parts, ";")
+}
+
+// wildResponse: an answer section with one A RRset + RRSIG per entry.
+func wildResponse(gs []ansSig, signer name) *dns.Msg {
+	m := new(dns.Msg)
+	q := name{"q"}
+	if len(gs) > 0 {
+		q = gs[0].owner
+	}
+	m.SetQuestion(q.pres(), dns.TypeA)
+	m.Response = true
+	for _, g := range gs {
+		o := g.owner.pres()
+		m.Answer = append(m.Answer,
+			&dns.A{Hdr: dns.RR_Header{Name: o, Rrtype: dns.TypeA, Class: dns.ClassINET, Ttl: 300}, A: []byte{192, 0, 2, 1}},
+			&dns.RRSIG{Hdr: dns.RR_Header{Name: o, Rrtype: dns.TypeRRSIG, Class: dns.ClassINET, Ttl: 300}, TypeCovered: dns.TypeA,
+				Algorithm: dns.RSASHA256, Labels: uint8(g.labels), OrigTtl: 300, Expiration: 2000000000, Inception: 1000000000,
+				KeyTag: 1, SignerName: signer.pres(), Signature: "AA=="})
+	}
+	return m
+}
+
+// wildTruth: RFC 4035 5.3.4 / RFC 4592 read directly.  An RRSIG with fewer
+// Labels than its owner claims the RRset was synthesised from
+// *.<closest encloser>; that is only possible when the zone has no closer
+// match: the next closer name (and so the owner) is not in the zone's tree and
+// not below a cut.  Returns the reason an accepted answer is wrong, or "".
+//
+// Only signatures the zone can really have produced are judged: the RRSIG was
+// verified before this check runs, so *.<closest encloser> is an authoritative
+// owner of the zone (what an attacker can replay is a GENUINE wildcard
+// signature); "unjudged" otherwise.
+func wildTruth(z *zone, gs []ansSig) string {
+	for _, g := range gs {
+		o := g.owner.fold()
+		if g.labels >= len(o) {
+			continue
+		}
+		if g.labels < len(z.apex) || !o.under(z.apex) || z.find(o.suffix(g.labels).child("*")) == nil {
+			return "unjudged"
+		}
+		nc := o.suffix(g.labels + 1)
+		switch {
+		case !nc.under(z.apex):
+			return "next-closer-outside-zone"
+		case z.find(nc) != nil:
+			return "closer-match-exists"
+		case z.isENT(nc):
+			return "next-closer-is-ent"
+		case z.find(o) != nil:
+			return "existing-name-expanded"
+		case z.occluded(nc):
+			return "below-cut-expanded"
+		}
+	}
+	return ""
 }
 
 // nodataTypeOK: types for which a NODATA answer may be synthesised at all
